@@ -254,6 +254,16 @@ Definition count_msgs_upto (from : N) (evs : log) : nat :=
 Definition tail_cut (evs : log) (head a : N) : option N :=
   option_map (cut_of head) (cut_scan a evs).
 
+(* `evs` is what one of the read paths may hand over for the cut `from`: `keep` is the projection of the
+   sidecar that was read (it keeps at least messages and run_ended frames), `src` is the thread or the
+   thread up to the cut, `evs` a suffix of the projected source that is either all of it or already
+   holds `limit` messages at or before the cut. *)
+Definition admissible_input (keep : frame -> bool) (limit : nat) (l : log) (from : N) (evs : log) : Prop :=
+  (forall f, mr_keep f = true -> keep f = true)
+  /\ exists src pre, (src = l \/ src = upto from l) /\ filter keep src = pre ++ evs
+       /\ (pre = [] \/ (limit <= count_msgs_upto from evs)%nat).
+Definition keep_all (f : frame) : bool := true.
+
 (* ------------------------------------------------------------------ specification *)
 Definition lastn {A} (n : nat) (l : list A) : list A := rev (firstn n (rev l)).
 
